@@ -123,9 +123,14 @@ def local_limit_runs(tier, viols):
         ("fraction_then_all", [{"threads": 1.15, "mem_gb": 1}, {"threads": 0.29, "mem_gb": 1}, {"threads": 0.57, "mem_gb": 1}, {"threads": 1.1, "mem_gb": 1}], 3, 4),
         # jobs that ask for the whole --localmem (exactly, and more: clamped), one after the other
         ("whole_mem", [{"threads": 1, "mem_gb": 2}, {"threads": 1, "mem_gb": 6}, {"threads": 1, "mem_gb": 1}, {"threads": 1, "mem_gb": 2}], 2, 2),
+        # requests given in an --overrides file (not validated when it is read): above the
+        # limits, negative ("as much as there is") and zero
+        ("overrides", [{"threads": 1, "mem_gb": 1}] * 4, 2, 2),
     ]
+    OVERRIDES = {"TOP.W0": {"chunk.threads": 8}, "TOP.W1": {"chunk.mem_gb": 9, "chunk.threads": 1.5}, "TOP.W2": {"chunk.threads": -1, "chunk.mem_gb": -1},
+                 "TOP.W3": {"chunk.threads": 0, "chunk.mem_gb": 0}}
     if tier == "quick":
-        configs = configs[:3] + configs[-2:]
+        configs = configs[:3] + configs[-3:]
     report = []
     progs = []
     for name, ress, cores, mem in configs:
@@ -140,7 +145,10 @@ def local_limit_runs(tier, viols):
         for rep in range(1 if tier == "quick" else 4):
             c = procdrv.Cycle(root, os.path.join(base, "%s_%d" % (name, rep)), q, sem[q["name"]], name, delay_ms=120,
                               cores=cores, mem=mem)
-            rc_, dt = c.run(timeout=(60 if name in ("fraction_then_all", "whole_mem") else 180))
+            if name == "overrides":
+                json.dump(OVERRIDES, open(os.path.join(c.wd, "overrides.json"), "w"))
+                c.extra.append("--overrides=" + os.path.join(c.wd, "overrides.json"))
+            rc_, dt = c.run(timeout=(60 if name in ("fraction_then_all", "whole_mem", "overrides") else 180))
             evs = c.events()
             running = {}
             peak_t = peak_m = 0.0
@@ -151,6 +159,8 @@ def local_limit_runs(tier, viols):
             except OSError:
                 pass
             rp = {"program.mro": c.mro, "limits.txt": "--localcores=%d --localmem=%d" % (cores, mem), "mrp.out": out[-3000:]}
+            if name == "overrides":
+                rp["overrides.json"] = json.dumps(OVERRIDES)
             for e in evs:
                 if e.get("ev") == "ProcStart":
                     try:
